@@ -10,6 +10,8 @@ class BcpPickleClient(BaseBcpClient):
 
     """BCP client using pickle."""
 
+    config_name = 'bcp_client'
+
     def __init__(self, machine, name, bcp):
         """Initialize BCP pickle client."""
         super().__init__(machine, name, bcp)
@@ -21,7 +23,7 @@ class BcpPickleClient(BaseBcpClient):
         message_length = struct.unpack("!I", (await self._receiver.readexactly(4)))[0]
         message_raw = await self._receiver.readexactly(message_length)
 
-        return pickle.load(message_raw)
+        return pickle.loads(message_raw)
 
     async def connect(self, config):
         """Actively connect to server."""
@@ -55,7 +57,7 @@ class BcpPickleClient(BaseBcpClient):
 
     def send(self, bcp_command, kwargs):
         """Send message."""
-        message_raw = pickle.dump(bcp_command, kwargs)
+        message_raw = pickle.dumps((bcp_command, kwargs))
         complete_message = struct.pack("!I", len(message_raw)) + message_raw
 
         if hasattr(self._sender.transport, "is_closing") and self._sender.transport.is_closing():
